@@ -2,5 +2,5 @@ INIT Init
 NEXT Next
 INVARIANT Inv
 CONSTANTS
- Encodings = {2}
+ Encodings = {2, 3}
 CHECK_DEADLOCK FALSE
